@@ -127,7 +127,7 @@ CHECKS["C11"] = (c11[0], c11[1] + "; lock-order / circular-wait search by system
 
 CLIENT_NOTE = ("the real watchtower-client binary is driven over stdio as lightningd would (client_rig) against scripted fake towers; "
                "timing obligations are real-time bounds with slack; lightningd itself is not part of the setting")
-CHECKS["C05"] = ("fault_enumeration",
+CHECKS["C05"] = ("model_checking",
     "Client.tla (client state machine: hook, retry manager, retriers, store; NeverLost, ExactlyOne, DataForResend) model-checked by TLC; "
     "fault enumeration on the real plugin binary with every trace validated by Trace_Client.tla",
     "Every reply class of a tower (accept, refuse, subscription error, other API error, non-JSON / wrong-shape bodies, bad and malformed "
@@ -135,7 +135,7 @@ CHECKS["C05"] = ("fault_enumeration",
     "enumerated and random points followed by a restart; outages; scripts made from TLC -simulate behaviours of the specification; "
     "seeded random fault sequences. After every event the durable and in-memory records are compared with the specification's.",
     CLIENT_NOTE, "DESIGN.md section 6 C05")
-CHECKS["C13"] = ("fault_enumeration",
+CHECKS["C13"] = ("model_checking",
     "Client.tla (OneLoop, NoFlood, EndsUnreachable, ManualRetryGate, Delivered under fairness) model-checked by TLC; outage / recovery "
     "enumeration on the real plugin binary, traces and the towers' request logs validated by Trace_Client.tla",
     "Outages of several lengths around the retry and auto-retry delays, every reply class on the retry path, retrier states "
@@ -143,7 +143,7 @@ CHECKS["C13"] = ("fault_enumeration",
     "kills and restarts; the delivery bound, the back-off and 'at most one retry loop per tower' are judged on the towers' logs.",
     CLIENT_NOTE + "; liveness is decided on the model under fairness and observed on the code as a bounded-time obligation",
     "DESIGN.md section 6 C13")
-CHECKS["C14"] = ("fault_enumeration",
+CHECKS["C14"] = ("model_checking",
     "Client.tla (registration recorded only through RegApply, BadSig, Misbehaving <=> proof stored, Survives) model-checked by TLC; every reply a tower can produce enumerated "
     "against the real plugin binary, traces validated by Trace_Client.tla",
     "Registration receipts (valid, wrong signer, not extending the known subscription), appointment acknowledgements with wrong and "
